@@ -1,8 +1,23 @@
 (* OnceModel: executable model of internal/once.c (nsync_run_once, _arg, _spin, _arg_spin) for any number of
-   callers on any number of nsync_once words.  One step = one atomic site on the once word.
-   once_mu / once_cv are deliberately abstract: a blocked loser's timed cv wait may return at any moment (its
-   deadline is at most 50 ms away), so a loser is simply a thread that re-reads the word; the lock only serialises
-   threads that do not touch the word.  Values and guards come from Gen/Sites.v.  No proofs in this file. *)
+   callers on any number of nsync_once words.
+   Steps:  one per atomic site on the once word (values and guards from Gen/Sites.v);
+           the call of the once-function f is TWO steps: f-begin (the thread enters f) and f-end (f returns; the
+           ghost [completed] is set HERE), and the store of 2 is a LATER step -- a C source that stored 2 before
+           calling f would not replay against this model (the scenario announces f's entry and exit in the trace);
+           the operations on the internal lock and condition variable are abstract steps: nsync_mu_lock /
+           nsync_mu_unlock of s->once_mu (blocking variants only; the spinning variants have s == NULL),
+           nsync_cv_broadcast (blocking winner only: a SPINNING winner skips it, once.c:81-84), the timed
+           nsync_cv_wait_with_deadline of a blocking loser (release of once_mu + wait, end of the wait, re-acquisition
+           of once_mu as three steps; the deadline is at most 50 ms away and the model has no clock, so the wait can
+           ALWAYS end by the waiter's own step -- whether the broadcast or the deadline ended it is not distinguished,
+           the broadcast step therefore changes no other thread), nsync_spin_delay_ of a spinning loser.
+   Environment (fields of the world that no step changes):
+           [slot]      which once_sync_s an nsync_once uses (NSYNC_ONCE_SYNC_ hashes the address: different once
+                       objects may SHARE once_mu / once_cv) -- an arbitrary map;
+           [fterm]     whether the once-function of an object returns (f-end is enabled only then);
+           [lockable]  whether nsync_mu_lock on a slot's once_mu returns when the mutex is free (the contract of
+                       nsync_mu; [false] models a mutex that cannot be obtained).
+   No proofs in this file. *)
 From NsyncBase Require Import CSem.
 From NsyncGen Require Import Consts Sites.
 From Coq Require Import List ZArith Bool.
@@ -11,47 +26,90 @@ Local Open Scope Z_scope.
 
 Inductive opc :=
 | OIdle
-| OEntry (o : nat) (spin : bool)              (* nsync_run_once*: o = ATM_LOAD_ACQ (once)            run_once#1 *)
-| OImplLoad (o : nat) (spin : bool)           (* nsync_run_once_impl: uint32_t o = ATM_LOAD_ACQ       impl#1 *)
-| OCas (o : nat) (spin : bool)                (* while (o == 0 && !ATM_CAS_ACQ (once, 0, 1))          impl#2 *)
-| OReload (o : nat) (spin : bool)             (*     o = ATM_LOAD (once)                              impl#3 *)
-| ORunning (o : nat) (spin : bool)            (* the winner: f is running; next site is the store     impl#4 *)
-| OWaitLoad (o : nat) (spin : bool).          (* while (ATM_LOAD_ACQ (once) != 2) { wait / spin }     impl#5 *)
+| OEntry (o : nat) (spin : bool)       (* nsync_run_once*: o = ATM_LOAD_ACQ (once)                     run_once#1 *)
+| OImplLoad (o : nat) (spin : bool)    (* nsync_run_once_impl: uint32_t o = ATM_LOAD_ACQ (once)        impl#1 *)
+| OLock (o : nat) (z : bool)           (* blocking: nsync_mu_lock (&s->once_mu); z: impl#1 read 0      once.c:67 *)
+| OCas (o : nat) (spin : bool)         (* while (o == 0 && !ATM_CAS_ACQ (once, 0, 1))                  impl#2 *)
+| OReload (o : nat) (spin : bool)      (*     o = ATM_LOAD (once)                                      impl#3 *)
+| OWinUnlock (o : nat)                 (* blocking winner: nsync_mu_unlock (&s->once_mu)               once.c:74 *)
+| OFBegin (o : nat) (spin : bool)      (* the winner is about to call f                                once.c:77/79 *)
+| OFRun (o : nat) (spin : bool)        (* inside f; the next step is f's return *)
+| OWinLock (o : nat)                   (* blocking winner: nsync_mu_lock (&s->once_mu)                 once.c:82 *)
+| OBroadcast (o : nat)                 (* blocking winner: nsync_cv_broadcast (&s->once_cv)            once.c:83 *)
+| OStore (o : nat) (spin : bool)       (* ATM_STORE_REL (once, 2)                                      impl#4 *)
+| OWaitLoad (o : nat) (spin : bool)    (* while (ATM_LOAD_ACQ (once) != 2)                             impl#5 *)
+| OCvEnter (o : nat)                   (* blocking loser: nsync_cv_wait_with_deadline releases once_mu once.c:94 *)
+| OCvWait (o : nat)                    (*   ... waits on once_cv, deadline <= 50 ms away *)
+| OCvReacq (o : nat)                   (*   ... woken or timed out: re-acquires once_mu *)
+| OSpin (o : nat)                      (* spinning loser: nsync_spin_delay_                            once.c:96 *)
+| OFinalUnlock (o : nat).              (* blocking: nsync_mu_unlock (&s->once_mu)                      once.c:100 *)
 
-Record tstate := mk_t { pc : opc; calls : list (nat * bool);     (* remaining calls: (once index, spinning variant) *)
-                        returned : list nat }.                   (* ghost: objects on which a call of this thread has returned *)
+Record tstate := mk_t { pc : opc;
+                        cur : option (nat * bool);       (* the call being executed (or the last one) *)
+                        calls : list (nat * bool);       (* remaining calls: (once index, spinning variant) *)
+                        returned : list nat }.           (* ghost: objects on which a call of this thread has returned *)
+Record env := mk_env { slot : nat -> nat; fterm : nat -> bool; lockable : nat -> bool }.
 Record world := mk_w {
+  cfg : env;                (* never changed *)
   once : nat -> Z;          (* the once words *)
-  runs : nat -> Z;          (* ghost: how often the function of object o has been started *)
+  mu : nat -> option nat;   (* once_mu of each slot: the thread holding it *)
+  wins : nat -> list nat;   (* ghost: the threads whose CAS 0 -> 1 on the word of object o succeeded *)
+  fbeg : nat -> list nat;   (* ghost: the threads that entered the function of object o *)
   completed : nat -> bool;  (* ghost: the function of object o has returned *)
   early : Z;                (* ghost: number of calls that returned while their object's function had not completed (must stay 0) *)
   thr : list tstate }.
+(* how often the function of object o has been started *)
+Definition runs (w : world) (o : nat) : Z := Z.of_nat (length (fbeg w o)).
 
-Inductive ev := EvLoad (site : Z) (v : Z) | EvCas (site : Z) (ok : bool) | EvStore (site : Z) (v : Z) | EvNone.
+Inductive ev :=
+| EvLoad (site : Z) (v : Z) | EvCas (site : Z) (ok : bool) | EvStore (site : Z) (v : Z)
+| EvFBegin (o : nat) | EvFEnd (o : nat)
+| EvFStuck (o : nat)                  (* the function does not return: nothing happens *)
+| EvLock (s : nat) | EvUnlock (s : nat)
+| EvBlocked (s : nat)                 (* nsync_mu_lock does not return (yet): nothing happens *)
+| EvBroadcast (s : nat)
+| EvCvRelease (s : nat)               (* the wait begins: once_mu released *)
+| EvCvEnd (s : nat)                   (* the wait ends by the waiter's own step: its deadline *)
+| EvSpin
+| EvNone.
 
 Definition fupd {A} (f : nat -> A) (k : nat) (v : A) : nat -> A := fun x => if Nat.eqb x k then v else f x.
 Fixpoint lupd {A} (l : list A) (k : nat) (v : A) : list A :=
   match l, k with [], _ => [] | _ :: t, O => v :: t | x :: t, S k' => x :: lupd t k' v end.
-Definition dflt := mk_t OIdle [] [].
+Definition dflt := mk_t OIdle None [] [].
 Definition get (w : world) (t : nat) := nth t (thr w) dflt.
-Definition set_pc (w : world) (t : nat) (p : opc) : world :=
-  let s := get w t in mk_w (once w) (runs w) (completed w) (early w) (lupd (thr w) t (mk_t p (calls s) (returned s))).
+Definition slot_of (w : world) (o : nat) : nat := slot (cfg w) o.
+
+Definition set_thr (w : world) (l : list tstate) : world :=
+  mk_w (cfg w) (once w) (mu w) (wins w) (fbeg w) (completed w) (early w) l.
+Definition with_pc (s : tstate) (p : opc) : tstate := mk_t p (cur s) (calls s) (returned s).
+Definition set_pc (w : world) (t : nat) (p : opc) : world := set_thr w (lupd (thr w) t (with_pc (get w t) p)).
+Definition set_mu (w : world) (s : nat) (h : option nat) : world :=
+  mk_w (cfg w) (once w) (fupd (mu w) s h) (wins w) (fbeg w) (completed w) (early w) (thr w).
 (* the call on object o returns *)
 Definition ret (w : world) (t : nat) (o : nat) : world :=
   let s := get w t in
-  mk_w (once w) (runs w) (completed w) (if completed w o then early w else early w + 1)
-       (lupd (thr w) t (mk_t OIdle (calls s) (o :: returned s))).
+  mk_w (cfg w) (once w) (mu w) (wins w) (fbeg w) (completed w) (if completed w o then early w else early w + 1)
+       (lupd (thr w) t (mk_t OIdle (cur s) (calls s) (o :: returned s))).
 
 Definition begin_call (w : world) (t : nat) : world :=
   let s := get w t in
   match pc s, calls s with
-  | OIdle, (o, sp) :: rest => mk_w (once w) (runs w) (completed w) (early w) (lupd (thr w) t (mk_t (OEntry o sp) rest (returned s)))
+  | OIdle, (o, sp) :: rest => set_thr w (lupd (thr w) t (mk_t (OEntry o sp) (Some (o, sp)) rest (returned s)))
   | _, _ => w
   end.
 
+(* nsync_mu_lock (&s->once_mu) by thread t, continuing at p *)
+Definition do_lock (w : world) (t : nat) (o : nat) (p : opc) : world * ev :=
+  let s := slot_of w o in
+  match mu w s with
+  | None => if lockable (cfg w) s then (set_pc (set_mu w s (Some t)) t p, EvLock s) else (w, EvBlocked s)
+  | Some _ => (w, EvBlocked s)
+  end.
+Definition do_unlock (w : world) (t : nat) (o : nat) (p : opc) : world * ev :=
+  let s := slot_of w o in (set_pc (set_mu w s None) t p, EvUnlock s).
 (* site ids: 10 + ordinal for nsync_run_once_impl; 1 for the entry load of the four public functions *)
-Definition step (w0 : world) (t : nat) : world * ev :=
-  let w := begin_call w0 t in
+Definition step_pc (w : world) (t : nat) : world * ev :=
   match pc (get w t) with
   | OIdle => (w, EvNone)
   | OEntry o sp =>
@@ -59,33 +117,99 @@ Definition step (w0 : world) (t : nat) : world * ev :=
       if v =? 2 then (ret w t o, EvLoad 1 v) else (set_pc w t (OImplLoad o sp), EvLoad 1 v)
   | OImplLoad o sp =>
       let v := once w o in
-      if nsync_run_once_impl_load2_guard v            (* o != 2: enter the body (and take once_mu in the blocking variants) *)
-      then (if nsync_run_once_impl_cas1_guard v then (set_pc w t (OCas o sp), EvLoad 11 v)
-            else (set_pc w t (OWaitLoad o sp), EvLoad 11 v))
+      if nsync_run_once_impl_load2_guard v            (* o != 2: enter the body *)
+      then (let z := nsync_run_once_impl_cas1_guard v in   (* o == 0: the CAS loop is entered *)
+            if sp then (set_pc w t (if z then OCas o sp else OWaitLoad o sp), EvLoad 11 v)
+            else (set_pc w t (OLock o z), EvLoad 11 v))       (* if (s != NULL) nsync_mu_lock (&s->once_mu) *)
       else (ret w t o, EvLoad 11 v)
+  | OLock o z => do_lock w t o (if z then OCas o false else OWaitLoad o false)
   | OCas o sp =>
       if once w o =? nsync_run_once_impl_cas1_old
-      then (mk_w (fupd (once w) o nsync_run_once_impl_cas1_new) (fupd (runs w) o (runs w o + 1)) (completed w) (early w)
-                 (lupd (thr w) t (mk_t (ORunning o sp) (calls (get w t)) (returned (get w t)))), EvCas 12 true)
+      then (mk_w (cfg w) (fupd (once w) o nsync_run_once_impl_cas1_new) (mu w) (fupd (wins w) o (t :: wins w o)) (fbeg w)
+                 (completed w) (early w)
+                 (lupd (thr w) t (with_pc (get w t) (if sp then OFBegin o sp else OWinUnlock o))), EvCas 12 true)
       else (set_pc w t (OReload o sp), EvCas 12 false)
   | OReload o sp =>
       let v := once w o in
       if v =? 0 then (set_pc w t (OCas o sp), EvLoad 13 v) else (set_pc w t (OWaitLoad o sp), EvLoad 13 v)
-  | ORunning o sp =>
-      (* f has returned (program order), the winner publishes *)
-      (mk_w (fupd (once w) o nsync_run_once_impl_store1_new) (runs w) (fupd (completed w) o true) (early w)
-            (lupd (thr w) t (mk_t (OWaitLoad o sp) (calls (get w t)) (returned (get w t)))), EvStore 14 nsync_run_once_impl_store1_new)
+  | OWinUnlock o => do_unlock w t o (OFBegin o false)
+  | OFBegin o sp =>
+      (mk_w (cfg w) (once w) (mu w) (wins w) (fupd (fbeg w) o (t :: fbeg w o)) (completed w) (early w)
+            (lupd (thr w) t (with_pc (get w t) (OFRun o sp))), EvFBegin o)
+  | OFRun o sp =>
+      if fterm (cfg w) o
+      then (mk_w (cfg w) (once w) (mu w) (wins w) (fbeg w) (fupd (completed w) o true) (early w)
+                 (lupd (thr w) t (with_pc (get w t) (if sp then OStore o sp else OWinLock o))), EvFEnd o)
+      else (w, EvFStuck o)
+  | OWinLock o => do_lock w t o (OBroadcast o)
+  | OBroadcast o => (set_pc w t (OStore o false), EvBroadcast (slot_of w o))
+  | OStore o sp =>
+      (mk_w (cfg w) (fupd (once w) o nsync_run_once_impl_store1_new) (mu w) (wins w) (fbeg w) (completed w) (early w)
+            (lupd (thr w) t (with_pc (get w t) (OWaitLoad o sp))), EvStore 14 nsync_run_once_impl_store1_new)
   | OWaitLoad o sp =>
       let v := once w o in
-      if v =? 2 then (ret w t o, EvLoad 15 v) else (w, EvLoad 15 v)     (* not yet: timed cv wait or spin delay, then re-read *)
+      if v =? 2 then (if sp then ret w t o else set_pc w t (OFinalUnlock o), EvLoad 15 v)
+      else (set_pc w t (if sp then OSpin o else OCvEnter o), EvLoad 15 v)
+  | OCvEnter o => let s := slot_of w o in (set_pc (set_mu w s None) t (OCvWait o), EvCvRelease s)
+  | OCvWait o => (set_pc w t (OCvReacq o), EvCvEnd (slot_of w o))     (* the deadline (<= 50 ms) *)
+  | OCvReacq o => do_lock w t o (OWaitLoad o false)
+  | OSpin o => (set_pc w t (OWaitLoad o true), EvSpin)
+  | OFinalUnlock o =>
+      let s := slot_of w o in (ret (set_mu w s None) t o, EvUnlock s)
   end.
 
-Definition init (progs : list (list (nat * bool))) : world :=
-  mk_w (fun _ => 0) (fun _ => 0) (fun _ => false) 0 (map (fun p => mk_t OIdle p []) progs).
+Definition step (w0 : world) (t : nat) : world * ev := step_pc (begin_call w0 t) t.
+
+Definition init (e : env) (progs : list (list (nat * bool))) : world :=
+  mk_w e (fun _ => 0) (fun _ => None) (fun _ => []) (fun _ => []) (fun _ => false) 0 (map (fun p => mk_t OIdle None p []) progs).
 Definition run (w : world) (sched : list nat) : world := fold_left (fun w t => fst (step w t)) sched w.
 
 (* ---------- statements ---------- *)
 Definition unfinished (w : world) (t : nat) : Prop := pc (get w t) <> OIdle \/ calls (get w t) <> [].
-(* a step that changes something (not a loser's fruitless re-read) *)
-Definition productive (w : world) (t : nat) : Prop := fst (step w t) <> w.
-Definition winner_of (w : world) (o : nat) (t : nat) : Prop := exists sp, pc (get w t) = ORunning o sp.
+Definition all_done (w : world) : Prop := forall t, pc (get w t) = OIdle /\ calls (get w t) = [].
+(* the winner of object o: between its successful CAS and its store of 2 *)
+Definition win_pc (o : nat) (p : opc) : Prop :=
+  p = OWinUnlock o \/ (exists sp, p = OFBegin o sp) \/ (exists sp, p = OFRun o sp) \/ p = OWinLock o \/ p = OBroadcast o \/
+  (exists sp, p = OStore o sp).
+Definition winner_of (w : world) (o : nat) (t : nat) : Prop := win_pc o (pc (get w t)).
+(* program counters at which the thread holds the once_mu of its object's slot / is about to operate on it *)
+Definition holds_pc (p : opc) : option nat :=
+  match p with
+  | OCas o false | OReload o false | OWinUnlock o | OBroadcast o | OStore o false | OWaitLoad o false
+  | OCvEnter o | OFinalUnlock o => Some o
+  | _ => None
+  end.
+(* program counters of the abstract lock / condition-variable operations: only a blocking call has them *)
+Definition lock_pc (p : opc) : option nat :=
+  match p with
+  | OLock o _ | OWinUnlock o | OWinLock o | OBroadcast o | OCvEnter o | OCvWait o | OCvReacq o | OFinalUnlock o => Some o
+  | _ => None
+  end.
+Definition lock_ev (e : ev) : bool :=
+  match e with EvLock _ | EvUnlock _ | EvBlocked _ | EvBroadcast _ | EvCvRelease _ | EvCvEnd _ => true | _ => false end.
+
+(* a progress measure: what a thread still has to do, as a number; [d2 = true]: the word of its object is 2.
+   A loser that finds the word not yet 2 goes round OWaitLoad -> (OCvEnter -> OCvWait -> OCvReacq | OSpin) -> OWaitLoad
+   at the same level (6, 7 while it holds once_mu); everything else only moves down. *)
+Definition stage (d2 : bool) (p : opc) : nat :=
+  match p with
+  | OIdle => 0
+  | OEntry _ _ => 20 | OImplLoad _ _ => 19 | OLock _ _ => 18 | OCas _ _ => 17 | OReload _ _ => 16
+  | OWinUnlock _ => 15 | OFBegin _ _ => 14 | OFRun _ _ => 13 | OWinLock _ => 12 | OBroadcast _ => 11 | OStore _ _ => 10
+  | OWaitLoad _ sp => if d2 then 2 else if sp then 6 else 8
+  | OCvEnter _ => 7
+  | OCvWait _ => if d2 then 4 else 6
+  | OCvReacq _ => if d2 then 3 else 6
+  | OSpin _ => if d2 then 3 else 6
+  | OFinalUnlock _ => 1
+  end.
+Definition pc_obj (p : opc) : option nat :=
+  match p with
+  | OIdle => None
+  | OEntry o _ | OImplLoad o _ | OLock o _ | OCas o _ | OReload o _ | OWinUnlock o | OFBegin o _ | OFRun o _ | OWinLock o
+  | OBroadcast o | OStore o _ | OWaitLoad o _ | OCvEnter o | OCvWait o | OCvReacq o | OSpin o | OFinalUnlock o => Some o
+  end.
+Definition is2 (w : world) (p : opc) : bool := match pc_obj p with Some o => once w o =? 2 | None => false end.
+Definition trank (w : world) (s : tstate) : nat := (21 * length (calls s) + stage (is2 w (pc s)) (pc s))%nat.
+Definition rank (w : world) : nat := fold_right (fun s a => (trank w s + a)%nat) O (thr w).
+Definition env_ok (e : env) : Prop := (forall o, fterm e o = true) /\ (forall s, lockable e s = true).
